@@ -105,6 +105,7 @@ func c18ErrID(err error) (int64, string) {
 // ok=false: the watchdog fired (inconclusive, already recorded).
 func c18RunFlight(m *vk.M, idx int, sc c18FScn) bool {
 	desc := fmt.Sprintf("case=%d;%s", idx, vk.JSON(sc))
+	m.Current(desc)
 	var sf SingleFlight
 	var lc LockedCalls
 	if sc.Kind == "sf" {
@@ -368,6 +369,7 @@ func c18GenRM(r interface{ Intn(int) int }) c18RMScn {
 
 func c18RunRM(m *vk.M, idx int, sc c18RMScn) bool {
 	desc := fmt.Sprintf("case=%d;rm;%s", idx, vk.JSON(sc))
+	m.Current(desc)
 	rm := NewResourceManager()
 	var (
 		mu      sync.Mutex
@@ -541,6 +543,7 @@ func c18GenMR(r interface{ Intn(int) int }) c18MRScn {
 
 func c18RunMR(m *vk.M, idx int, sc c18MRScn) bool {
 	desc := fmt.Sprintf("case=%d;mr;%s", idx, vk.JSON(sc))
+	m.Current(desc)
 	var (
 		mu       sync.Mutex
 		gens     []*c18MRes
